@@ -7,9 +7,13 @@ Everything here is decided from the syntax tree; no code of the repository is ru
 * W1 (HDF5 agreement): recognised forms of the hyperslab, attribute, guard, look-up.
 * W2 (file names): name expressions become templates (literal text + fields with format specs, `_template`); the rules
   compare templates (family, zero padding, glob pattern), classify the selection expression (max / min / by date / listing
-  order) and the way a requested time is detected (presence / noneness / truth value).
-* G3-printer: classification of the attribute source, filters, entry template and frame of `__str__`.
-* W3 save steps: the two conditions as congruences on the global step index.
+  order) and the way a requested time is detected (presence / noneness / truth value).  The time parsed from the chosen
+  name is decided on an abstract string (segments: arbitrary folder text, literals, the digits of the time field) to which
+  the split / partition / basename / splitext operations of the parsing expression are applied (`_abs_string`).
+* G3-printer: classification of the attribute source (dir(self) with filters, also written as early `continue`s; or the keys
+  of a module-/class-level table, compared with the settable public attributes of the class), entry template and frame.
+* W3 save steps: the two conditions as congruences on the global step index; counters of this invocation (0 + 1 per
+  iteration, or `ti - <snapshot of ti before the loop>`) are recognised as such.
 * G3-setters-commute and G4-zero-divisor are write-set / flow analyses.
 Every recogniser is three-valued: HOLDS for a recognised correct form, VIOLATED only for a recognised wrong form, else UNDECIDED.
 """
@@ -211,15 +215,128 @@ def _inline_nested(fn):
     return done
 
 
-def _work(fn):
-    """copy of a function with with-blocks spliced and simple nested helper functions written back at their call sites"""
+def _imported_functions(chk, rel):
+    """{local name: (module path, function name)} for `from <relative module> import f [as g]` at the top of module `rel`"""
+    out = {}
+    try:
+        tree = chk.mod(rel).tree
+    except AnalysisError:
+        return out
+    parts = rel.split("/")[:-1]
+    for st in tree.body:
+        if isinstance(st, ast.ImportFrom) and st.level >= 1 and st.module and st.level - 1 <= len(parts):
+            base = parts[:len(parts) - (st.level - 1)]
+            target = "/".join(base + st.module.split(".")) + ".py"
+            if chk.repo.exists(target):
+                for al in st.names:
+                    out[al.asname or al.name] = (target, al.name)
+    return out
+
+
+def _inline_expression_functions(chk, rel, w):
+    """calls of functions imported from another module of the repository whose body is one `return <expression>` are replaced
+    by that expression with the parameters bound (a shared helper such as `checkpointName(folder, name, t)`): the rules then
+    see the same expression as when it is written in place"""
+    imported = _imported_functions(chk, rel)
+    if not imported:
+        return []
+    done = []
+
+    class T(ast.NodeTransformer):
+        def visit_Call(self, node):
+            self.generic_visit(node)
+            if not (isinstance(node.func, ast.Name) and node.func.id in imported):
+                return node
+            target, name = imported[node.func.id]
+            try:
+                h = chk.repo.mod(target).func(name)           # recorded as a unit of the check only when it is used (below)
+            except AnalysisError:
+                return node
+            a = h.args
+            body = [b for b in h.body if not (isinstance(b, ast.Expr) and isinstance(b.value, ast.Constant))]
+            if a.vararg or a.kwarg or a.kwonlyargs or a.posonlyargs or h.decorator_list or len(body) != 1 or not isinstance(body[0], ast.Return) \
+                    or body[0].value is None or any(isinstance(x, (ast.Lambda, ast.ListComp, ast.SetComp, ast.DictComp, ast.GeneratorExp, ast.NamedExpr))
+                                                    for x in ast.walk(body[0].value)):
+                return node
+            params = [x.arg for x in a.args]
+            actual = dict(zip(params, node.args))
+            if len(node.args) > len(params) or any(isinstance(x, ast.Starred) for x in node.args):
+                return node
+            for kw in node.keywords:
+                if kw.arg is None or kw.arg not in params or kw.arg in actual:
+                    return node
+                actual[kw.arg] = kw.value
+            defaults = dict(zip(params[len(params) - len(a.defaults):], a.defaults))
+            for p_ in params:
+                if p_ not in actual:
+                    if p_ not in defaults:
+                        return node
+                    actual[p_] = defaults[p_]
+            # free names of the expression other than the parameters must be builtins / module names that mean the same here
+            free = {x.id for x in ast.walk(body[0].value) if isinstance(x, ast.Name)} - set(params)
+            if free - {"str", "int", "format", "os"}:
+                return node
+            new = _Sub(actual).visit(_clone(body[0].value))
+            for x in ast.walk(new):
+                ast.copy_location(x, node)
+            done.append(name)
+            chk.mod(target)
+            return new
+    T().visit(w)
+    return done
+
+
+def _work(fn, chk=None, rel=None):
+    """copy of a function with with-blocks spliced, simple nested helper functions written back at their call sites and (when the
+    module is given) imported one-expression functions written out"""
     w = _clone(fn)
     _splice_with(w)
+    if chk is not None and rel is not None:
+        _inline_expression_functions(chk, rel, w)
     w._inlined = _inline_nested(w)
     ast.fix_missing_locations(w)
     _link(w)
     w._qual = getattr(fn, "_qual", fn.name)
     return w
+
+
+def _accessors(cls):
+    """{method name: attribute} for the methods of a class that only return one attribute of self (`def getAllData(self): return self._f`)"""
+    out = {}
+    for st in cls.body:
+        if isinstance(st, ast.FunctionDef) and len(st.args.args) == 1 and not (st.args.vararg or st.args.kwarg or st.args.kwonlyargs) \
+                and not st.decorator_list:
+            body = [b for b in st.body if not (isinstance(b, ast.Expr) and isinstance(b.value, ast.Constant))]
+            if len(body) == 1 and isinstance(body[0], ast.Return) and isinstance(body[0].value, ast.Attribute) \
+                    and isinstance(body[0].value.value, ast.Name) and body[0].value.value.id == st.args.args[0].arg:
+                out[st.name] = body[0].value.attr
+    return out
+
+
+def _write_back_accessors(w, acc, cls_name, self_too):
+    """`obj.getX()` -> `obj.x` where `obj` is `self` inside the class or a local built by the class constructor, and getX is an
+    accessor of that class: the rules then see the attribute itself"""
+    if not acc:
+        return
+    D = _Defs(w)
+
+    def is_obj(e):
+        if not isinstance(e, ast.Name):
+            return False
+        if self_too and w.args.args and e.id == w.args.args[0].arg:
+            return True
+        ds = [v for v, _ in D.defs.get(e.id, [])]
+        return bool(ds) and all(isinstance(v, ast.Call) and _fname(v) == cls_name and isinstance(v.func, ast.Name) for v in ds)
+
+    class T(ast.NodeTransformer):
+        def visit_Call(self, node):
+            self.generic_visit(node)
+            if isinstance(node.func, ast.Attribute) and node.func.attr in acc and not node.args and not node.keywords and is_obj(node.func.value):
+                return ast.copy_location(ast.Attribute(value=node.func.value, attr=acc[node.func.attr], ctx=ast.Load()), node)
+            return node
+    T().visit(w)
+    ast.fix_missing_locations(w)
+    _link(w)
 
 
 def _params(fn):
@@ -411,6 +528,11 @@ def _hyperslab(e):
     if not isinstance(c, (ast.ListComp, ast.GeneratorExp)) or len(c.generators) != 1 or c.generators[0].ifs:
         return None
     g = c.generators[0]
+    # index form: slice(A[i], B[i]) for i in range(...)
+    if isinstance(g.target, ast.Name) and isinstance(g.iter, ast.Call) and _fname(g.iter) == "range" and len(g.iter.args) == 1 \
+            and isinstance(c.elt, ast.Call) and _fname(c.elt) == "slice" and len(c.elt.args) == 2 \
+            and all(isinstance(x, ast.Subscript) and isinstance(x.slice, ast.Name) and x.slice.id == g.target.id for x in c.elt.args):
+        return c.elt.args[0].value, c.elt.args[1].value
     if not (isinstance(c.elt, ast.Call) and _fname(c.elt) == "slice" and len(c.elt.args) == 2 and isinstance(g.target, ast.Tuple)
             and len(g.target.elts) == 2 and isinstance(g.iter, ast.Call) and _fname(g.iter) == "zip" and len(g.iter.args) == 2):
         return None
@@ -498,7 +620,11 @@ def hdf5_agreement(chk):
     w0 = chk.func(U.GRID, "Grid.writeH5Dataset")
     r0 = chk.func(U.GRID, "Grid.loadFromFile")
     s0 = chk.func(U.SETUPS, "setupFromFile")
-    w, r, s = _work(w0), _work(r0), _work(s0)
+    w, r, s = _work(w0, chk, U.GRID), _work(r0, chk, U.GRID), _work(s0, chk, U.SETUPS)
+    acc = _accessors(chk.mod(U.GRID).cls("Grid"))
+    _write_back_accessors(w, acc, "Grid", True)
+    _write_back_accessors(r, acc, "Grid", True)
+    _write_back_accessors(s, acc, "Grid", False)
     Dw, Dr, Ds = _Defs(w), _Defs(r), _Defs(s)
     KW, KR, KS = dict(file=U.GRID, func="Grid.writeH5Dataset"), dict(file=U.GRID, func="Grid.loadFromFile"), dict(file=U.SETUPS, func="setupFromFile")
 
@@ -554,6 +680,24 @@ def hdf5_agreement(chk):
             "process writes exactly its [start,end) block of it", bad, **KW)
 
     # ---- the layout attribute
+    guards = []
+    for n in _own_walk(r):
+        t = None
+        if isinstance(n, ast.Assert):
+            t, want = n.test, "all-equal"
+        elif isinstance(n, ast.If) and n.body and isinstance(n.body[0], ast.Raise):
+            t, want = n.test, "some-differ"
+        if t is not None:
+            rt = Dr.resolve(t)
+            if _attr_reads(rt):
+                guards.append((rt, want, n))
+    reader_attr = None          # the Layout property the loader compares the stored attribute with
+    if len(guards) == 1:
+        f_ = _eq_form(guards[0][0])
+        if f_ is not None:
+            for side in (_strip(f_[0]), _strip(f_[1])):
+                if isinstance(side, ast.Attribute) and not _attr_reads(side) and side.attr in LAYOUT_PROPS:
+                    reader_attr = side
     ok = bad = None
     skip = wl_kind == "bad"          # decided (and reported) by the hyperslab rule
     if len(wattr) == 1 and wattr[0][0] is not None and wattr[0][1] is not None and _is_const(wattr[0][0], typ=str) and rakeys and sakeys:
@@ -566,8 +710,11 @@ def hdf5_agreement(chk):
             if src(data) == wl + ".dims_order":
                 ok = True
             elif data.attr != "dims_order" and src(data.value) == wl and data.attr in LAYOUT_PROPS:
-                bad = (f"the attribute records `{src(data)}`, not the order of the dimensions `{wl}.dims_order` which both readers "
-                       "compare it with: checkpoints are refused or read in the wrong order")
+                if reader_attr is not None and reader_attr.attr != data.attr:
+                    bad = (f"the writer records `{src(data)}` in the attribute '{key}', but loadFromFile compares the stored value with "
+                           f"`{src(reader_attr)}`: "
+                           "checkpoints are refused or read in the wrong order")
+                # else: writer and loader agree on another property: a consistent other convention, not decided here
             elif data.attr == "dims_order" and _fixed_layout(src(data.value)):
                 bad = (f"the attribute records the order of `{src(data.value)}` while the data are written in the order of `{wl}`: "
                        "a reader that trusts the attribute reinterprets the axes")
@@ -579,17 +726,6 @@ def hdf5_agreement(chk):
     rl_kind = rl = None
     if len(rloads) == 1:
         rl_kind, rl = _block_layout(_hyperslab(Dr.resolve(rloads[0].value.slice)))
-    guards = []
-    for n in _own_walk(r):
-        t = None
-        if isinstance(n, ast.Assert):
-            t, want = n.test, "all-equal"
-        elif isinstance(n, ast.If) and n.body and isinstance(n.body[0], ast.Raise):
-            t, want = n.test, "some-differ"
-        if t is not None:
-            rt = Dr.resolve(t)
-            if _attr_reads(rt):
-                guards.append((rt, want, n))
     ok = bad = None
     anchor = r0
     if not guards:
@@ -597,9 +733,20 @@ def hdf5_agreement(chk):
         passed_on = any(isinstance(n, ast.Call) and any(isinstance(x, ast.Name) and x.id in holders for a in n.args for x in ast.walk(a))
                         and not (_fname(n) in _WRAP) for n in _own_walk(r)) or any(
             isinstance(n, ast.Call) and any(_attr_reads(a) for a in n.args) and _fname(n) not in _WRAP for n in _own_walk(r))
-        if rloads and not passed_on:
-            bad = ("no assertion compares the stored 'Layout' attribute with the layout of the grid: a checkpoint written in another "
-                   "layout is loaded with permuted axes")
+        # the opened file / dataset handed to some other callable (a helper may do the comparison): cannot decide
+        h5 = {t.id for n in _own_walk(r) if isinstance(n, ast.Assign) for t in n.targets if isinstance(t, ast.Name)
+              and (_is_file_open(Dr.resolve(n.value)) or (isinstance(Dr.resolve(n.value), ast.Subscript) and _is_file_open(Dr.resolve(n.value).value)))}
+        handed = any(isinstance(n, ast.Call) and _fname(n) not in _WRAP and any(isinstance(a, ast.Name) and a.id in h5 for a in
+                     list(n.args) + [k.value for k in n.keywords]) for n in _own_walk(r))
+        used = any(isinstance(n, ast.Name) and n.id in holders and isinstance(n.ctx, ast.Load) for n in _own_walk(r))
+        tests_attr = any(isinstance(n, (ast.If, ast.While, ast.IfExp)) and _attr_reads(Dr.resolve(n.test)) for n in _own_walk(r))
+        if rloads and not passed_on and not handed and not tests_attr:
+            if not rakeys:
+                bad = ("the stored 'Layout' attribute is never read and nothing compares it with the layout of the grid: a checkpoint "
+                       "written in another layout is loaded with permuted axes")
+            elif holders and not used:
+                bad = (f"the stored 'Layout' attribute is read into `{sorted(holders)[0]}` but never compared with the layout of the grid "
+                       "(no assertion, no refusal): a checkpoint written in another layout is loaded with permuted axes")
     elif len(guards) == 1:
         rt, want, anchor = guards[0]
         f = _eq_form(rt)
@@ -765,6 +912,41 @@ def _stored_layout_lookup(s, Ds, ML):
             if not any(_is_const(d[0], None) and isinstance(d[0], ast.Constant) and d[0].value is None for d in defs if d[0] is not None):
                 return None, None
             return True, None
+    # form (c): first match of a comprehension over the table: next(name for name, dims in T.items() if <all equal>) / [...][0]
+    if len(defs) == 1 and defs[0][0] is not None:
+        v = Ds.resolve(defs[0][0])
+        comp, needs_refuse, default = None, False, False
+        if isinstance(v, ast.Call) and _fname(v) == "next" and isinstance(v.func, ast.Name) and v.args and not v.keywords:
+            comp = v.args[0]
+            if isinstance(comp, ast.Call) and _fname(comp) == "iter" and len(comp.args) == 1:
+                comp = comp.args[0]
+            if len(v.args) > 1:
+                needs_refuse, default = _is_const_none(v.args[1]), not _is_const_none(v.args[1])
+        elif isinstance(v, ast.Subscript) and _const_index(v.slice) in (0, -1) and isinstance(v.value, ast.ListComp):
+            comp = v.value              # an empty list refuses by IndexError
+        if isinstance(comp, (ast.GeneratorExp, ast.ListComp)) and len(comp.generators) == 1 and len(comp.generators[0].ifs) == 1:
+            g = comp.generators[0]
+            if isinstance(g.target, ast.Tuple) and len(g.target.elts) == 2 and isinstance(g.iter, ast.Call) and _fname(g.iter) == "items" \
+                    and src(comp.elt) == src(g.target.elts[0]):
+                dims = src(g.target.elts[1])
+                f = _eq_form(g.ifs[0])
+                if f is None:
+                    return None, None
+                a, b, kind = f
+                a, b = _strip(a), _strip(b)
+                if src(a) != dims:
+                    a, b = b, a
+                if src(a) != dims or not _attr_reads(b):
+                    return None, None
+                if kind != "all-equal":
+                    return None, (f"the stored order selects a layout when `{src(g.ifs[0])}` ({kind.replace('-', ' ')}), not when every "
+                                  "position agrees: the data are read in the order of a layout they were not written in")
+                if default:
+                    return None, ("an unknown stored ordering is mapped to a default layout instead of being refused: the data are "
+                                  "read in an order they were not written in")
+                if needs_refuse and not refuse:
+                    return None, (None if mentions else f"`{ML}` is None for an unknown stored ordering and nothing refuses it")
+                return True, None
     # form (b): inverted table {order: name}
     if len(defs) == 1 and defs[0][0] is not None:
         v = Ds.resolve(defs[0][0])
@@ -967,6 +1149,12 @@ def _const_index(sl):
     return None
 
 
+class _Kind(str):
+    """a selection kind that carries the key function (`fn`) and whether the largest or smallest key is taken (`pick`)"""
+    fn = None
+    pick = None
+
+
 def _selection(value, stmt, D, block):
     """how one file is chosen among the listed names -> (kind, listing expression);
     kind: max | min | date | key | listing-order | None"""
@@ -989,7 +1177,11 @@ def _selection(value, stmt, D, block):
         inner, asc, key = _unwrap_names(v.args[0])
         key = next((src(k.value) for k in v.keywords if k.arg == "key"), None)
         if key is not None:
-            return ("date" if datekey(key) else "key"), inner
+            if datekey(key):
+                return "date", inner
+            k_ = _Kind("key")           # max / min by a key function: the rule looks at what the function extracts
+            k_.fn, k_.pick = next(k.value for k in v.keywords if k.arg == "key"), v.func.id
+            return k_, inner
         return v.func.id, inner
     if isinstance(v, ast.Subscript):
         idx = _const_index(v.slice)
@@ -1050,7 +1242,7 @@ def file_names(chk):
     w0 = chk.func(U.GRID, "Grid.writeH5Dataset")
     r0 = chk.func(U.GRID, "Grid.loadFromFile")
     s0 = chk.func(U.SETUPS, "setupFromFile")
-    w, r, s = _work(w0), _work(r0), _work(s0)
+    w, r, s = _work(w0, chk, U.GRID), _work(r0, chk, U.GRID), _work(s0, chk, U.SETUPS)
     Dw, Dr, Ds = _Defs(w), _Defs(r), _Defs(s)
     KW, KR, KS = dict(file=U.GRID, func="Grid.writeH5Dataset"), dict(file=U.GRID, func="Grid.loadFromFile"), dict(file=U.SETUPS, func="setupFromFile")
     pw, pr, ps = _params(w), _params(r), _params(s)
@@ -1149,10 +1341,21 @@ def file_names(chk):
             elif kind == "listing-order":
                 bad = (f"{who} takes an element of the unsorted directory listing (`{src(st)[:70]}`): glob returns names in arbitrary "
                        "order, so any checkpoint may be loaded")
+            elif kind == "key" and getattr(kind, "fn", None) is not None and isinstance(kind.fn, ast.Lambda) and len(kind.fn.args.args) == 1 \
+                    and pat is not None and "{?" not in pat and pat.count("*") == 1 and not any(ch in pat for ch in "[]?") \
+                    and pat[:pat.find("*")] == pre and suf_ok(pat[pat.find("*") + 1:]):
+                # the files of the family ordered by a key: decided when the key is the time field of the name
+                kok, kbad = _time_parser(kind.fn.body, kind.fn.args.args[0].arg, pre, fam[2])
+                if kok and kind.pick == "max":
+                    ok = True
+                elif kok:
+                    bad = f"{who} takes the file of the SMALLEST time (`{src(st)[:70]}`): the oldest checkpoint is loaded instead of the latest"
+                elif kbad:
+                    bad = f"{who} orders the files by a key that is not their time: " + kbad
             elif kind == "max" and pat is not None and padded:
                 star = pat.find("*")
-                if star < 0 or "{?" in pat:
-                    pass
+                if star < 0 or "{?" in pat or any(ch in pat for ch in "[]?") or pat.count("*") != 1:
+                    pass                    # character classes / several wildcards: the set of names is not compared here
                 elif pat[:star] != pre or not suf_ok(pat[star + 1:]):
                     bad = (f"{who} lists `{pat}` but the checkpoints are named `{canon_w}`: the pattern does not select exactly that "
                            "family (other files, e.g. the potential's, can be the largest name, or no checkpoint matches)")
@@ -1180,9 +1383,8 @@ def file_names(chk):
         tv = rets[0].value.elts[2].id
         blk = sch[0][3]
         parsed = [v for v, st in Ds.defs.get(tv, []) if v is not None and blk is not None and any(st is x for x in blk)]
-        sep = fam[0][-1:]
         if len(parsed) == 1:
-            ok, bad = _time_parser(parsed[0], sfile, sep, fam[2])
+            ok, bad = _time_parser(Ds.resolve(parsed[0], within=blk, stop=(sfile,)), sfile, fam[0].replace("{N}", default or "{N}"), fam[2])
     chk.pat("W2-latest-selection", s0, "restart: returned time = int(piece of the chosen name between separator and extension)", ok,
             "the time returned for the latest checkpoint is the time field of its name", bad, **KS)
 
@@ -1236,52 +1438,210 @@ def file_names(chk):
             "timepoint=0 (the checkpoint every run writes first)")
 
 
-def _time_parser(e, fname, sep, suffix):
-    """is `e` the integer between the last `sep` and the extension of the name held by `fname`? -> (ok, bad)"""
+# ---- abstract strings: a checkpoint name as a sequence of segments  ('any',) arbitrary text (the folder) | ('lit', text) |
+#      ('dig',) the digits of the time field.  The parsing operations (split / partition / basename / splitext ...) are applied
+#      to this abstract value; nothing is run on concrete names.
+def _segs_of_canon(canon_prefix, suffix):
+    out = []
+    for m in re.finditer(r"\{([A-Za-z?]+)(?::[^}]*)?\}|([^{}]+)", canon_prefix):
+        out.append(("any",) if m.group(1) else ("lit", m.group(2)))
+    out.append(("dig",))
+    if suffix:
+        out.append(("lit", suffix))
+    return out
+
+
+def _clean(segs):
+    out = []
+    for g in segs:
+        if g[0] == "lit" and g[1] == "":
+            continue
+        if g[0] == "lit" and out and out[-1][0] == "lit":
+            out[-1] = ("lit", out[-1][1] + g[1])
+        else:
+            out.append(g)
+    return out
+
+
+def _find(segs, c, last):
+    """position of the last / first occurrence of the character c -> ('found', k, pos) | ('any', k) | ('absent',) | None"""
+    if len(c) != 1 or c.isdigit():
+        return None
+    order = range(len(segs) - 1, -1, -1) if last else range(len(segs))
+    for k in order:
+        g = segs[k]
+        if g[0] == "any":
+            return ("any", k)
+        if g[0] == "lit":
+            pos = g[1].rfind(c) if last else g[1].find(c)
+            if pos >= 0:
+                return ("found", k, pos)
+    return ("absent",)
+
+
+def _cut(segs, c, side, last):
+    """the part after / before the last / first `c` -> ('ok', segs) | ('folder', c) | ('nosep', c) | None (cannot tell)"""
+    f = _find(segs, c, last)
+    if f is None:
+        return None
+    if f[0] == "any":
+        return ("nosep", c) if last else ("folder", c)
+    if f[0] == "absent":
+        return ("whole", segs)
+    _, k, pos = f
+    text = segs[k][1]
+    if side == "after":
+        return ("ok", _clean([("lit", text[pos + 1:])] + segs[k + 1:]))
+    return ("ok", _clean(segs[:k] + [("lit", text[:pos])]))
+
+
+def _abs_string(x, fname, name_segs):
+    """abstract value of a string expression built from the chosen file name -> ('ok', segs) | ('folder', c) | ('nosep', c) | None"""
+    def lit_arg(call, k=0):
+        return call.args[k].value if len(call.args) > k and _is_const(call.args[k], typ=str) else None
+
+    def sub(e):
+        r = _abs_string(e, fname, name_segs)
+        return r
+    if isinstance(x, ast.Name):
+        return ("ok", list(name_segs)) if x.id == fname else None
+    if isinstance(x, ast.Call) and _fname(x) == "str" and len(x.args) == 1:
+        return sub(x.args[0])
+    if isinstance(x, ast.Call) and _fname(x) == "basename" and len(x.args) == 1:
+        r = sub(x.args[0])
+        if r is None or r[0] != "ok":
+            return r
+        c = _cut(r[1], "/", "after", True)
+        if c is not None and c[0] == "nosep":
+            return None
+        return ("ok", c[1]) if c is not None else None
+    if isinstance(x, ast.Attribute) and x.attr in ("name", "stem") and isinstance(x.value, ast.Call) and _fname(x.value) in ("Path", "PurePath") \
+            and len(x.value.args) == 1:
+        r = sub(x.value.args[0])
+        if r is None or r[0] != "ok":
+            return r
+        c = _cut(r[1], "/", "after", True)
+        if c is None or c[0] == "nosep":
+            return None
+        if x.attr == "stem":
+            c = _cut(c[1], ".", "before", True)
+            if c is None or c[0] not in ("ok", "whole"):
+                return None
+        return ("ok", c[1])
+    if isinstance(x, ast.Call) and isinstance(x.func, ast.Attribute) and x.func.attr == "removesuffix" and lit_arg(x) is not None:
+        r = sub(x.func.value)
+        if r is None or r[0] != "ok":
+            return r
+        if r[1] and r[1][-1][0] == "lit" and r[1][-1][1].endswith(lit_arg(x)):
+            return ("ok", _clean(r[1][:-1] + [("lit", r[1][-1][1][:len(r[1][-1][1]) - len(lit_arg(x))])]))
+        return None
+    if isinstance(x, ast.Subscript) and isinstance(x.slice, ast.Slice) and x.slice.lower is None and x.slice.step is None:
+        n = _const_index(x.slice.upper) if x.slice.upper is not None else None
+        r = sub(x.value)
+        if r is None or r[0] != "ok":
+            return r
+        if n is not None and n < 0 and r[1] and r[1][-1][0] == "lit" and len(r[1][-1][1]) >= -n:
+            return ("ok", _clean(r[1][:-1] + [("lit", r[1][-1][1][:n])]))
+        return None
+    if isinstance(x, ast.Subscript) and isinstance(x.value, ast.Call):
+        call, i = x.value, _const_index(x.slice)
+        if i is None:
+            return None
+        if _fname(call) == "splitext" and len(call.args) == 1:
+            r = sub(call.args[0])
+            if r is None or r[0] != "ok":
+                return r
+            f = _find(r[1], ".", True)
+            if i != 0 or f is None or f[0] != "found" or any(g[0] == "lit" and "/" in g[1] for g in r[1][f[1] + 1:]) \
+                    or "/" in r[1][f[1]][1][f[2]:]:
+                return None
+            c = _cut(r[1], ".", "before", True)
+            return ("ok", c[1])
+        if not isinstance(call.func, ast.Attribute):
+            return None
+        m, c = call.func.attr, lit_arg(call)
+        if m not in ("split", "rsplit", "partition", "rpartition") or c is None:
+            return None
+        r = sub(call.func.value)
+        if r is None or r[0] != "ok":
+            return r
+        segs = r[1]
+        limit = call.args[1].value if len(call.args) > 1 and _is_const(call.args[1], typ=int) else None
+        if len(call.args) > 1 and limit is None or call.keywords:
+            return None
+        op = None
+        if m == "partition":
+            op = {0: ("before", False), 2: ("after", False), -3: ("before", False), -1: ("after", False)}.get(i)
+        elif m == "rpartition":
+            op = {0: ("before", True), 2: ("after", True), -3: ("before", True), -1: ("after", True)}.get(i)
+        elif m == "split" and limit is None:
+            if i == -1:
+                op = ("after", True)
+            elif i == 0:
+                op = ("before", False)
+            elif i > 0:
+                for _ in range(i):
+                    cc = _cut(segs, c, "after", False)
+                    if cc is None or cc[0] != "ok":
+                        return cc if cc is not None and cc[0] == "folder" else None
+                    segs = cc[1]
+                op, i = ("before", False), 0            # piece i of the text = piece 0 of what follows the i-th separator
+        elif m == "split" and limit == 1:
+            op = {0: ("before", False), 1: ("after", False), -1: ("after", False), -2: ("before", False)}.get(i)
+        elif m == "rsplit" and limit == 1:
+            op = {0: ("before", True), 1: ("after", True), -1: ("after", True), -2: ("before", True)}.get(i)
+        elif m == "rsplit" and limit is None:
+            if i == -1:
+                op = ("after", True)
+            elif i == 0:
+                op = ("before", False)
+        if op is None:
+            return None
+        cc = _cut(segs, c, op[0], op[1])
+        if cc is None:
+            return None
+        if cc[0] == "whole":
+            # the separator does not occur: split()[0] / [-1] and the matching partition pieces are the whole text;
+            # the other pieces are empty or missing
+            whole_ok = (m in ("split", "rsplit") and i in (0, -1)) or (m == "partition" and i in (0, -3)) or (m == "rpartition" and i in (2, -1))
+            return ("ok", segs) if whole_ok else None
+        return cc
+    return None
+
+
+def _show_segs(segs):
+    return "".join("<folder>" if g[0] == "any" else "<t>" if g[0] == "dig" else g[1] for g in segs)
+
+
+def _time_parser(e, fname, prefix, suffix):
+    """is `e` the integer of the time field of the name held by `fname`?  The name is the abstract string
+    <prefix with the folder arbitrary><digits><suffix>; the string operations of `e` are applied to it -> (ok, bad)"""
     if not (isinstance(e, ast.Call) and _fname(e) == "int" and len(e.args) == 1):
         return None, None
-    e = e.args[0]
-
-    def split_call(x):
-        """X.split(c)[i] / X.rsplit(c, n)[i] -> (X, method, c, n, i)"""
-        if isinstance(x, ast.Subscript) and isinstance(x.value, ast.Call) and isinstance(x.value.func, ast.Attribute) \
-                and x.value.func.attr in ("split", "rsplit") and x.value.args and _is_const(x.value.args[0], typ=str):
-            c = x.value
-            n = c.args[1].value if len(c.args) > 1 and _is_const(c.args[1], typ=int) else None
-            return c.func.value, c.func.attr, c.args[0].value, n, _const_index(x.slice)
-        return None
-    outer = split_call(e)
-    if outer is None:
+    sep = prefix[-1:]
+    if not sep or sep == "}" or sep.isdigit():
         return None, None
-    x1, m1, c1, n1, i1 = outer
-    inner = split_call(x1)
-    dot = suffix[:1]
-    # form A: name.split(sep)[-1].split('.')[0]
-    if inner is not None and src(inner[0]) == fname:
-        x0, m0, c0, n0, i0 = inner
-        last = i0 == -1 or (m0 == "rsplit" and n0 == 1 and i0 == 1)
-        if c0 != sep:
-            return None, (f"the time is parsed after the last `{c0}` of the name, but the writer separates the time with `{sep}`")
-        if not last:
-            if isinstance(i0, int) and i0 >= 0:
-                return None, (f"the time is taken from piece {i0} of the whole path split at `{sep}`: a folder name that contains `{sep}` "
-                              "(the default folder is `simulation_<i>`) shifts the pieces and another text is parsed as the time")
-            return None, None
-        if sep in suffix or c1 != dot or not dot or i1 != 0 or m1 != "split":
-            return None, None
+    name = _clean(_segs_of_canon(prefix, suffix))
+    r = _abs_string(e.args[0], fname, name)
+    if r is None:
+        return None, None
+    if r[0] == "folder" and r[1] != sep:
+        return None, None            # depends on the folder name only through a character the name family does not use as separator
+    if r[0] == "folder":
+        return None, (f"the time is taken from a piece of the whole path counted from its beginning (split at `{r[1]}`): a folder name that "
+                      f"contains `{r[1]}` " + ("(the default folder is `simulation_<i>`) " if r[1] == "_" else "") + "shifts the pieces and "
+                      "another text is parsed as the time")
+    if r[0] == "nosep":
+        return None, (f"the time is parsed after the last `{r[1]}` of the name, but the writer separates the time with `{sep}` "
+                      f"(names are `{_show_segs(name)}`): the text converted is not the time field")
+    segs = r[1]
+    if segs == [("dig",)]:
         return True, None
-    # form B: splitext(basename(name))[0].rsplit(sep, 1)[1]
-    if isinstance(x1, ast.Subscript) and _const_index(x1.slice) == 0 and isinstance(x1.value, ast.Call) and _fname(x1.value) == "splitext" \
-            and len(x1.value.args) == 1:
-        b = x1.value.args[0]
-        if isinstance(b, ast.Call) and _fname(b) == "basename" and len(b.args) == 1:
-            b = b.args[0]
-        if src(b) == fname and suffix.count(".") == 1 and suffix.startswith("."):
-            last = i1 == -1 or (m1 == "rsplit" and n1 == 1 and i1 == 1)
-            if c1 != sep:
-                return None, f"the time is parsed after the last `{c1}` of the name, but the writer separates the time with `{sep}`"
-            if last:
-                return True, None
+    if ("dig",) in segs and all(g[0] != "any" for g in segs) and any(g[0] == "lit" and re.search(r"[A-Za-z./]", g[1]) for g in segs):
+        return None, (f"the text converted by int() is `{_show_segs(segs)}` of the name `{_show_segs(name)}`, not the time field alone: "
+                      "int() raises ValueError for every checkpoint")
+    if ("dig",) not in segs and all(g[0] == "lit" for g in segs):
+        return None, (f"the text converted by int() is `{_show_segs(segs)}` of the name `{_show_segs(name)}`: it does not contain the time field")
     return None, None
 
 
@@ -1315,7 +1675,47 @@ def _attr_source(e, D):
     if (isinstance(e, ast.Call) and isinstance(e.func, ast.Name) and e.func.id == "vars" and len(e.args) == 1 and src(e.args[0]) == "self") \
             or src(e) == "self.__dict__":
         return "dict", filters
+    if isinstance(e, ast.Name) and e.id not in D.defs and e.id not in D.params:
+        return ("table", e.id), filters          # the keys of a table that is not local to the printer (module level / imported)
+    if isinstance(e, ast.Attribute) and (src(e.value) in ("self", "type(self)", "self.__class__") or (isinstance(e.value, ast.Name) and e.value.id[:1].isupper())):
+        return ("table", src(e)), filters        # a table kept on the class
+    lit = _string_keys(e)
+    if lit is not None:
+        return ("table", src(e)[:40] + ("..." if len(src(e)) > 40 else ""), lit), filters     # names spelled out in the printer
     return None, filters
+
+
+def _string_keys(v):
+    """the strings of a literal tuple / list / set, or the keys of a literal dict; None for anything else"""
+    if isinstance(v, ast.Dict) and v.keys and all(_is_const(k, typ=str) for k in v.keys):
+        return {k.value for k in v.keys}
+    if isinstance(v, (ast.Tuple, ast.List, ast.Set)) and v.elts and all(_is_const(k, typ=str) for k in v.elts):
+        return {k.value for k in v.elts}
+    if isinstance(v, ast.Call) and _fname(v) in ("tuple", "list", "set", "frozenset", "sorted") and len(v.args) == 1 and not v.keywords:
+        return _string_keys(v.args[0])
+    return None
+
+
+def _negated(t):
+    """conjuncts of `not t` (De Morgan on `or`, comparison operators flipped, double negation removed); None when `t` is a
+    conjunction (its negation is a disjunction, not a list of conditions)"""
+    if isinstance(t, ast.BoolOp) and isinstance(t.op, ast.Or):
+        out = []
+        for v in t.values:
+            n = _negated(v)
+            if n is None:
+                return None
+            out.extend(n)
+        return out
+    if isinstance(t, ast.BoolOp):
+        return None
+    if isinstance(t, ast.UnaryOp) and isinstance(t.op, ast.Not):
+        return _conjuncts(t.operand)
+    flip = {ast.Eq: ast.NotEq, ast.NotEq: ast.Eq, ast.Is: ast.IsNot, ast.IsNot: ast.Is, ast.In: ast.NotIn, ast.NotIn: ast.In,
+            ast.Lt: ast.GtE, ast.GtE: ast.Lt, ast.Gt: ast.LtE, ast.LtE: ast.Gt}
+    if isinstance(t, ast.Compare) and len(t.ops) == 1 and type(t.ops[0]) in flip:
+        return [ast.copy_location(ast.Compare(left=t.left, ops=[flip[type(t.ops[0])]()], comparators=t.comparators), t)]
+    return [ast.copy_location(ast.UnaryOp(op=ast.Not(), operand=t), t)]
 
 
 def _conjuncts(t):
@@ -1324,8 +1724,11 @@ def _conjuncts(t):
     return [t]
 
 
-def _printer(fn, D):
-    """static classification of Constants.__str__ -> (ok, bad): is the text a JSON object of exactly the public data attributes?"""
+def _printer(fn, D, required=None, methods=(), table_keys=None, optional=()):
+    """static classification of Constants.__str__ -> (ok, bad): is the text a JSON object of exactly the public data attributes?
+    `required`: the public data attributes of the class (class-level values and properties); `table_keys(name)`: the keys of a
+    module-level table (or None when they cannot be enumerated); the attribute source may be dir(self) filtered, or the keys
+    of such a table: then the keys are compared with `required`"""
     lists = {n.func.value.id for n in _own_walk(fn) if isinstance(n, ast.Call) and isinstance(n.func, ast.Attribute)
              and n.func.attr == "append" and isinstance(n.func.value, ast.Name)}
     rets = [n for n in _own_walk(fn) if isinstance(n, ast.Return) and n.value is not None]
@@ -1337,7 +1740,15 @@ def _printer(fn, D):
 
     def rename(e, var):
         return _Sub({var: "K"}).visit(_clone(e)) if var != "K" else e
-    loops = [n for n in _own_walk(fn) if isinstance(n, ast.For) and isinstance(n.target, ast.Name)]
+    table_value = None          # `for key, value in <table>.items()`: the name bound to the table's own value
+    extra_keys = set()          # keys of entries written outside the loop
+    loops = []
+    for n in _own_walk(fn):
+        if isinstance(n, ast.For) and isinstance(n.target, ast.Name):
+            loops.append(n)
+        elif isinstance(n, ast.For) and isinstance(n.target, ast.Tuple) and len(n.target.elts) == 2 and all(isinstance(x, ast.Name) for x in n.target.elts) \
+                and isinstance(n.iter, ast.Call) and isinstance(n.iter.func, ast.Attribute) and n.iter.func.attr == "items" and not n.iter.args:
+            loops.append(n)
     joins = [n for n in ast.walk(ret) if isinstance(n, ast.Call) and isinstance(n.func, ast.Attribute) and n.func.attr == "join"
              and isinstance(n.func.value, ast.Constant) and len(n.args) == 1]
     dumps = ret if isinstance(ret, ast.Call) and _fname(ret) == "dumps" and len(ret.args) >= 1 and isinstance(ret.args[0], ast.DictComp) else None
@@ -1353,7 +1764,10 @@ def _printer(fn, D):
         entry, frame = "json", ("{", ",", "}", "")
     elif len(loops) == 1:
         lp = loops[0]
-        var = lp.target.id
+        if isinstance(lp.target, ast.Tuple):
+            var, table_value = lp.target.elts[0].id, lp.target.elts[1].id
+        else:
+            var = lp.target.id
         source, filters = _attr_source(lp.iter, D)
         conds = [rename(c, v) for v, cs in filters for c in cs]
         emits = []
@@ -1366,10 +1780,55 @@ def _printer(fn, D):
         if len(emits) != 1:
             return None, None
         st, acc, e, how = emits[0]
-        for t, pol, k in guards_of(st, stop=lp):
-            if k != "if" or not pol:
+        # entries added to the same text outside the loop (`s += '"rp":{},\n'.format(self.rp)`): their keys count as printed;
+        # an addition that is not such an entry cannot be followed
+        in_lp = {id(x) for x in ast.walk(lp)}
+        for n in _own_walk(fn):
+            ev = None
+            if id(n) in in_lp:
+                continue
+            if isinstance(n, ast.AugAssign) and isinstance(n.target, ast.Name) and n.target.id == acc:
+                ev = n.value
+            elif isinstance(n, ast.Assign) and len(n.targets) == 1 and src(n.targets[0]) == acc and isinstance(n.value, ast.BinOp) \
+                    and isinstance(n.value.op, ast.Add) and src(n.value.left) == acc:
+                ev = n.value.right
+                if _is_const(ev, typ=str) and "\"" not in ev.value:
+                    continue            # closing text (the frame), not an entry
+            elif isinstance(n, ast.Expr) and isinstance(n.value, ast.Call) and isinstance(n.value.func, ast.Attribute) and n.value.func.attr in (
+                    "append", "insert", "extend") and src(n.value.func.value) == acc and n.value.args:
+                ev = n.value.args[-1]
+            if ev is None:
+                continue
+            t_ = _template(D.resolve(ev))
+            m_ = re.match(r'^\s*"(\w+)"\s*:\s*$', t_[0][1]) if t_ and len(t_) in (2, 3) and t_[0][0] == "lit" and t_[1][0] == "fld" else None
+            if m_ is None or t_[1][1] not in (f"self.{m_.group(1)}", f"getattr(self, '{m_.group(1)}')") or (len(t_) == 3 and t_[2][0] != "lit"):
                 return None, None
-            conds.extend(rename(D.resolve(c, stop=(var,)), var) for c in _conjuncts(t))
+            extra_keys.add(m_.group(1))
+        for t, pol, k in guards_of(st, stop=lp):
+            if k != "if":
+                return None, None
+            cs = _conjuncts(t) if pol else _negated(t)
+            if cs is None:
+                return None, None
+            conds.extend(rename(D.resolve(c, stop=(var,)), var) for c in cs)
+        # early exits of the iteration: `if <test>: continue` at the top level of the body before the entry is emitted filters
+        # the names like a guard with the negated test; any other jump out of the iteration cannot be followed
+        top = st
+        while parent(top) is not lp:
+            top = parent(top)
+        k_emit = next((k for k, x in enumerate(lp.body) if x is top), None)
+        if k_emit is None:
+            return None, None
+        for jump in [n for n in ast.walk(lp) if isinstance(n, (ast.Continue, ast.Break, ast.Return))]:
+            holder = parent(jump)
+            if isinstance(jump, ast.Continue) and isinstance(holder, ast.If) and parent(holder) is lp and not holder.orelse \
+                    and len(holder.body) == 1 and any(x is holder for x in lp.body[:k_emit]):
+                cs = _negated(holder.test)
+                if cs is None:
+                    return None, None
+                conds.extend(rename(D.resolve(c, stop=(var,), within=lp), var) for c in cs)
+            else:
+                return None, None
         entry = rename(D.resolve(e, stop=(var,)), var)
         if how == "str":
             init = [v for v, s_ in D.defs.get(acc, []) if v is not None and _is_const(v, typ=str)]
@@ -1405,18 +1864,36 @@ def _printer(fn, D):
     if source == "dict":
         return None, ("only the instance dictionary is printed (vars(self) / self.__dict__): constants that live on the class and the "
                       "properties rMin, rMax, npts, splineDegrees are missing from the saved file, a restart reads the defaults for them")
-    if source != "dir":
-        return None, None
     texts = [src(c) for c in conds]
     callable_ok = [t for t in texts if t in ("not callable(getattr(self, K))",)]
     public_ok = [t for t in texts if t in ("K[0] != '_'", "not K.startswith('_')", "K[:1] != '_'")]
     rest = [t for t in texts if t not in callable_ok and t not in public_ok]
     if rest:
         return None, None
-    if not callable_ok:
+    missing = None
+    if isinstance(source, tuple) and source[0] == "table":
+        # the names printed are the keys of a table: they must cover the public data attributes of the class
+        keys = source[2] if len(source) > 2 else table_keys(source[1]) if table_keys is not None else None
+        if keys is None or required is None:
+            return None, None
+        if (keys & set(methods) and not callable_ok) or (any(k.startswith("_") for k in keys) and not public_ok) or keys - set(required) - set(methods) - set(optional):
+            return None, None            # a key that is a method / private / not an attribute of the class: cannot decide
+        missing = sorted(set(required) - keys - extra_keys)
+        if missing:
+            return None, (f"the names printed are the keys of the table `{source[1]}` ({len(keys)} keys), which has no entry for the public "
+                          f"data attribute(s) {missing} of the class: they are no longer written to the parameter file. get_constants "
+                          "reads such a file with these attributes unset and recomputes / defaults them (a derived value is rebuilt "
+                          "from the other constants), so an object in which " + " or ".join(f"`{m}`" for m in missing) + " was given "
+                          "explicitly (parameter file, or other constants overridden after it was computed) does not read back equal: "
+                          "the restarted run uses other constants than the original run")
+    elif source != "dir":
+        return None, None
+    if missing is not None:
+        pass
+    elif not callable_ok:
         return None, ("methods are not filtered out: the text contains `<bound method ...>` values, which is not JSON; get_constants "
                       "cannot read the saved parameter file")
-    if not public_ok:
+    elif not public_ok:
         return None, ("names starting with `_` are not filtered out: private storage and dunder attributes are printed, the text is not "
                       "a JSON object of the constants")
     # ---- shape of one entry and of the whole text
@@ -1430,6 +1907,11 @@ def _printer(fn, D):
             return None, "the keys are printed without double quotes: the text is not JSON and get_constants (json.load) fails on it"
         if len(shape) >= 4 and shape[0] == ("lit", "'") and shape[1][:2] == ("fld", "K"):
             return None, "the keys are printed in single quotes: the text is not JSON and get_constants (json.load) fails on it"
+        if table_value is not None and isinstance(source, tuple) and len(shape) in (4, 5) and shape[1] == ("fld", "K", "") \
+                and shape[3] == ("fld", table_value, ""):
+            return None, (f"the value printed for a key is `{table_value}`, the entry of the table `{source[1]}` itself, not the attribute "
+                          "`getattr(self, <key>)` of the object: the saved parameter file holds the table's values instead of the "
+                          "constants of the run")
         if not (len(shape) in (4, 5) and shape[0] == ("lit", '"') and shape[1] == ("fld", "K", "") and shape[2][0] == "lit"
                 and shape[2][1].replace(" ", "") == '":' and shape[3] == ("fld", "getattr(self, K)", "")):
             return None, None
@@ -1448,6 +1930,54 @@ def _printer(fn, D):
     if head.strip() != "{" or tail is None or tail.strip() != "}":
         return None, None
     return True, None
+
+
+def _module_table_keys(chk, rel, name, depth=2):
+    """keys of the module-level dictionary `name` of module `rel` (followed through one `from .x import name`): the string keys of
+    its literal plus those of the statements `name[<str>] = ...`; None when the table is built in any other way"""
+    try:
+        tree = chk.mod(rel).tree
+    except AnalysisError:
+        return None
+    body = tree.body
+    if "." in name:                      # `self.X` / `Cls.X`: a table assigned in the body of a class of this module
+        attr = name.rsplit(".", 1)[1]
+        owner = name.rsplit(".", 1)[0]
+        classes = [c for c in tree.body if isinstance(c, ast.ClassDef) and (owner in ("self", "type(self)", "self.__class__") or c.name == owner)
+                   and any(isinstance(st, ast.Assign) and any(isinstance(t, ast.Name) and t.id == attr for t in st.targets) for st in c.body)]
+        if len(classes) != 1:
+            return None
+        # assigned once in the class body and never stored to elsewhere in the module
+        if sum(1 for n in ast.walk(tree) if isinstance(n, ast.Attribute) and n.attr == attr and isinstance(n.ctx, (ast.Store, ast.Del))) or any(
+                isinstance(n, ast.Attribute) and n.attr == attr and isinstance(parent(n), ast.Attribute) and isinstance(parent(parent(n)), ast.Call)
+                and parent(parent(n)).func is parent(n) for n in ast.walk(tree)):
+            return None
+        body, name = classes[0].body, attr
+    keys, defined = set(), False
+    for st in body:
+        if isinstance(st, ast.ImportFrom) and any((al.asname or al.name) == name for al in st.names):
+            al = next(al for al in st.names if (al.asname or al.name) == name)
+            if depth <= 0 or st.level != 1 or not st.module or "." in st.module:
+                return None
+            target = rel.rsplit("/", 1)[0] + "/" + st.module + ".py"
+            if not chk.repo.exists(target):
+                return None
+            return _module_table_keys(chk, target, al.name, depth - 1)
+        mentions = [n for n in ast.walk(st) if isinstance(n, ast.Name) and n.id == name]
+        if not mentions or isinstance(st, (ast.FunctionDef, ast.AsyncFunctionDef, ast.ClassDef)):
+            continue
+        if isinstance(st, ast.Assign) and len(st.targets) == 1:
+            t, v = st.targets[0], st.value
+            if isinstance(t, ast.Name) and t.id == name and _string_keys(v) is not None and not defined and len(mentions) == 1:
+                keys |= _string_keys(v)
+                defined = True
+                continue
+            if defined and isinstance(t, ast.Subscript) and isinstance(t.value, ast.Name) and t.value.id == name and _is_const(t.slice, typ=str) \
+                    and all(isinstance(parent(m), ast.Subscript) and isinstance(m.ctx, ast.Load) for m in mentions):
+                keys.add(t.slice.value)
+                continue
+        return None
+    return keys if defined else None
 
 
 def _literal_names(fn, D, roles, calls, other="?"):
@@ -1502,7 +2032,12 @@ def constants_round_trip(chk):
     # ---- printer: classified from its syntax tree
     st0 = chk.func(U.CONSTANTS, "Constants.__str__")
     st_ = _work(st0)
-    ok, bad = _printer(st_, _Defs(st_))
+    getters = {st.name for st in cls.body if isinstance(st, ast.FunctionDef) and any(src(d) == "property" for d in st.decorator_list)}
+    methods = {st.name for st in cls.body if isinstance(st, ast.FunctionDef)} - getters
+    # attributes that can be SET independently must be stored (class-level values, properties with a setter); a read-only
+    # property is a function of the others and may be left out
+    ok, bad = _printer(st_, _Defs(st_), required=plain | (getters & set(writes)), methods=methods, optional=getters,
+                       table_keys=lambda name: _module_table_keys(chk, U.CONSTANTS, name))
     chk.pat("G3-printer", st0, "__str__: every public non-callable attribute", ok,
             "the text is `{` + one `\"key\":value` entry per name of dir(self) that is public and not callable, comma separated, + `}`: "
             "a JSON object of exactly the public data attributes (class-level values and properties included)", bad,
@@ -1527,7 +2062,19 @@ def constants_round_trip(chk):
         lp = loops[0]
         inside = {id(x) for x in ast.walk(lp)}
         early = [c for c in dcalls if id(c) in inside or _pos(c) < _pos(lp)]
-        if a0 is None or _is_const(a0, True):
+        if a0 is None:
+            # the constructor's own default decides (today `setup=True`: defaults installed)
+            init = next((m_ for m_ in cls.body if isinstance(m_, ast.FunctionDef) and m_.name == "__init__"), None)
+            if init is not None and len(init.args.args) >= 2 and init.args.defaults and len(init.args.defaults) == len(init.args.args) - 1 \
+                    and not ctor.args and not ctor.keywords:
+                a0 = init.args.defaults[0]
+                uses_flag = [n_ for n_ in init.body if isinstance(n_, ast.If) and same_expr(n_.test, init.args.args[1].arg) and any(
+                    isinstance(c_, ast.Call) and _fname(c_) == "set_defaults" for x_ in n_.body for c_ in ast.walk(x_))]
+                if not uses_flag:
+                    a0 = None
+            if a0 is None:
+                a0 = ast.Name(id="<unknown>", ctx=ast.Load())
+        if _is_const(a0, True):
             bad = ("the constants object is created with its defaults installed: an expression in the file that refers to a key given "
                    "later in the file is evaluated with the default instead (result depends on key order)")
         elif early:
@@ -1555,14 +2102,55 @@ def constants_round_trip(chk):
             t = tests[0]
             arm = t.body if same_expr(t.test, f"{res} is None") else t.orelse
             other = t.orelse if arm is t.body else t.body
-            deferred = [a for s_ in arm for a in ast.walk(s_) if isinstance(a, ast.Assign) and isinstance(a.targets[0], ast.Subscript)]
+            # the None arm puts the entry into a container (pend[key] = text / pend.append(entry) / pend.add ...)
+            deferred, pends = [], []
+            for s_ in arm:
+                for a in ast.walk(s_):
+                    if isinstance(a, ast.Assign) and isinstance(a.targets[0], ast.Subscript) and isinstance(a.targets[0].value, ast.Name):
+                        deferred.append(a)
+                        pends.append(a.targets[0].value.id)
+                    elif isinstance(a, ast.Expr) and isinstance(a.value, ast.Call) and isinstance(a.value.func, ast.Attribute) \
+                            and a.value.func.attr in ("append", "add", "insert", "appendleft", "setdefault", "update", "extend") \
+                            and isinstance(a.value.func.value, ast.Name) and a.value.args:
+                        deferred.append(a)
+                        pends.append(a.value.func.value.id)
+            # the attribute is set only when the expression could be evaluated: in the other arm, or after the test when the
+            # None arm leaves the iteration
             sets = [c for s_ in other for c in ast.walk(s_) if isinstance(c, ast.Call) and _fname(c) == "setattr"]
+            if not sets and arm is t.body and arm and isinstance(arm[-1], ast.Continue):
+                # statements that follow the test inside the same iteration (in its block and in the enclosing blocks up to the loop)
+                node = t
+                while node is not None and not isinstance(node, (ast.For, ast.While)):
+                    up = parent(node)
+                    for f_ in ("body", "orelse", "finalbody"):
+                        b_ = getattr(up, f_, None)
+                        if isinstance(b_, list) and any(x is node for x in b_):
+                            k_t = next(k for k, x in enumerate(b_) if x is node)
+                            sets += [c for s_ in b_[k_t + 1:] for c in ast.walk(s_) if isinstance(c, ast.Call) and _fname(c) == "setattr"]
+                    node = up
             if len(deferred) == 1 and sets:
-                pend = src(deferred[0].targets[0].value)
+                pend = pends[0]
                 outer = loops[0]
-                retried = [a for a in ast.walk(outer) if isinstance(a, ast.Assign) and any(
-                    isinstance(x, ast.Name) and x.id == pend and isinstance(x.ctx, ast.Load) for x in ast.walk(a.value))
-                    and a is not deferred[0]]
+                # the work-list: what the outer loop tests, what inner loops iterate over, what entries are popped from
+                work = {x.id for x in ast.walk(outer.test) if isinstance(x, ast.Name)} if isinstance(outer, ast.While) else set()
+                for n_ in ast.walk(outer):
+                    if isinstance(n_, ast.For):
+                        work |= {x.id for x in ast.walk(n_.iter) if isinstance(x, ast.Name)}
+                    elif isinstance(n_, ast.While) and n_ is not outer:
+                        work |= {x.id for x in ast.walk(n_.test) if isinstance(x, ast.Name)}
+                    elif isinstance(n_, ast.Call) and isinstance(n_.func, ast.Attribute) and n_.func.attr in ("pop", "popitem", "popleft") \
+                            and isinstance(n_.func.value, ast.Name):
+                        work.add(n_.func.value.id)
+                work = {w_ for w_ in work if w_ in D.defs and w_ != pend}
+                mentions = lambda e_: e_ is not None and any(isinstance(x, ast.Name) and x.id == pend and isinstance(x.ctx, ast.Load)
+                                                             for x in ast.walk(e_))
+                retried = []
+                in_outer = {id(x) for x in ast.walk(outer)}
+                for w_ in work:             # bindings inside the loop (tuple assignments are taken apart by _Defs)
+                    retried += [st_ for v_, st_ in D.defs.get(w_, []) if id(st_) in in_outer and mentions(v_) and st_ is not deferred[0]]
+                retried += [n_ for n_ in ast.walk(outer) if isinstance(n_, ast.Call) and isinstance(n_.func, ast.Attribute)
+                            and n_.func.attr in ("update", "extend", "extendleft") and isinstance(n_.func.value, ast.Name)
+                            and n_.func.value.id in work and any(mentions(a_) for a_ in n_.args)]
                 progress = [a for a in ast.walk(outer) if isinstance(a, ast.Assert) and isinstance(a.test, ast.Compare)
                             and isinstance(a.test.ops[0], (ast.Lt, ast.Gt)) and "len(" in src(a.test)]
                 uses = [x for st_ in ast.walk(outer) if isinstance(st_, ast.stmt) and not isinstance(st_, (ast.Assert, ast.While, ast.For, ast.If))
@@ -1570,6 +2158,10 @@ def constants_round_trip(chk):
                 if not retried and not uses:
                     bad = (f"deferred expressions are collected in `{pend}` but never taken up again: a key that refers to a later key "
                            "is lost")
+                elif not retried and all(isinstance(parent(x), ast.Call) and _fname(parent(x)) == "len" for x in uses):
+                    bad = (f"deferred expressions are collected in `{pend}`, but only its length is read afterwards: the entries never "
+                           f"return to the work-list ({', '.join(sorted(work)) or 'none found'}), so a key that refers to a later key "
+                           "of the file is lost")
                 elif isinstance(outer, ast.While) and progress:
                     ok = True
     chk.pat("G3-dependency-order", gc0, "unresolved expressions are retried until all keys are read", ok,
@@ -1585,7 +2177,19 @@ def constants_round_trip(chk):
         val = gets[0].targets[0].id
         blk = _enclosing_block(gets[0]) or []
         stores = [n for n in ast.walk(ee) if isinstance(n, ast.Name) and n.id == val and isinstance(n.ctx, ast.Store)]
-        rets = [n for s_ in blk for n in ast.walk(s_) if isinstance(n, ast.Return) and (n.value is None or _is_const_none(n.value))]
+        is_none_ret = lambda n: isinstance(n, ast.Return) and (n.value is None or _is_const_none(n.value))
+        rets = [n for s_ in blk for n in ast.walk(s_) if is_none_ret(n)]
+        any_none_ret = any(is_none_ret(n) for n in _own_walk(ee))
+        tested = [n for n in _own_walk(ee) if isinstance(n, (ast.If, ast.IfExp, ast.While, ast.Assert))
+                  and any(isinstance(x, ast.Name) and x.id == val for x in ast.walk(n.test))]
+
+        def none_arm(i):
+            """statements of an `if` executed when the operand is None (and whether that arm is the body)"""
+            if same_expr(i.test, f"{val} is None") or same_expr(i.test, f"{val} == None") or same_expr(i.test, f"not {val}"):
+                return i.body, True
+            if same_expr(i.test, f"{val} is not None") or same_expr(i.test, f"{val} != None"):
+                return i.orelse, False
+            return None, None
         if len(stores) > 1:
             other = [parent(n) for n in stores if parent(n) is not gets[0]][0]
             gs = [(t, pol) for t, pol, k in guards_of(other, stop=parent(gets[0])) if k == "if"]
@@ -1593,15 +2197,34 @@ def constants_round_trip(chk):
                        or (same_expr(gs[0][0], f"not {val}") and gs[0][1])):
                 bad = (f"an operand that is still unset is replaced (`{src(other)[:70]}`) instead of deferring the expression: it is "
                        "evaluated with a value the file may override later (result depends on key order)")
-        elif not rets:
+        elif not tested and not any_none_ret:
             if not any(isinstance(n, ast.Raise) for s_ in blk for n in ast.walk(s_)):
-                bad = ("eval_expr never returns None for an unset operand: the expression is evaluated with `None` in place of a key "
-                       "that comes later in the file")
+                bad = ("eval_expr never tests the operand it fetched and never returns None: an operand that is still unset enters the "
+                       "expression as the text `None` instead of deferring the expression to a later sweep")
         else:
-            for r_ in rets:
-                gs = [(t, pol) for t, pol, k in guards_of(r_, stop=parent(gets[0])) if k == "if"]
-                if gs and ((same_expr(gs[0][0], f"{val} is not None") and not gs[0][1]) or (same_expr(gs[0][0], f"{val} is None") and gs[0][1])):
+            for i in [n for n in tested if isinstance(n, ast.If)]:
+                arm, is_body = none_arm(i)
+                if arm is None:
+                    continue
+                if any(is_none_ret(n) for s_ in arm for n in ast.walk(s_)):
                     ok = True
+                    continue
+                # a flag set in the None arm and turned into `return None` later in the function
+                flags = {t_.id for s_ in arm if isinstance(s_, ast.Assign) and isinstance(s_.value, ast.Constant) and s_.value.value is True
+                         for t_ in s_.targets if isinstance(t_, ast.Name)}
+                for fl in flags:
+                    others = [d for d in _Defs(ee).defs.get(fl, []) if not any(d[1] is s_ for s_ in arm)]
+                    cleared = others and all(isinstance(d[0], ast.Constant) and d[0].value in (False, None) and _pos(d[1]) < _pos(i) for d in others)
+                    turned = [j for j in _own_walk(ee) if isinstance(j, ast.If) and _pos(j) > _pos(i) and (same_expr(j.test, fl) or same_expr(
+                        j.test, f"{fl} is True") or same_expr(j.test, f"{fl} == True")) and any(is_none_ret(n) for s_ in j.body for n in ast.walk(s_))
+                        and not guards_of(j)]
+                    leaves = arm and isinstance(arm[-1], (ast.Break, ast.Continue)) or not is_body or not [
+                        s_ for s_ in (_enclosing_block(i) or []) if _pos(s_) > _pos(i)]
+                    if cleared and turned and leaves:
+                        ok = True
+                if ok is None and not arm and not any_none_ret:
+                    bad = (f"nothing is done when the operand is unset (`{src(i.test)}` has no other arm) and eval_expr never returns None: "
+                           "the expression cannot be deferred, the unset name stays in the text that is evaluated")
     chk.pat("G3-dependency-order", ee0, "eval_expr: unknown operand -> None (defer)", ok,
             "a symbolic operand that is still unset makes the expression deferred, never silently replaced", bad,
             file=U.CONSTANTS, func="eval_expr")
@@ -1622,7 +2245,7 @@ def constants_round_trip(chk):
             if f is not None and Dss.resolve(f, within=_enclosing_block(prints[0])) is not None and \
                     src(Dss.resolve(f, within=_enclosing_block(prints[0]))) == src(Dss.resolve(opens[0][1], within=_enclosing_block(opens[0][1]))):
                 wrote = opens[0][0]
-    sf = _work(chk.func(U.SETUPS, "setupFromFile"))
+    sf = _work(chk.func(U.SETUPS, "setupFromFile"), chk, U.SETUPS)
     Dsf = _Defs(sf)
     psf = _params(sf)
     read = None
@@ -1671,13 +2294,47 @@ def zero_divisors(chk, fn):
             zeros[st.targets[0].id] = st
     found = 0
 
+    def nonzero_when(test):
+        """names known to be non-zero when `test` is true / when it is false -> (set, set)"""
+        if isinstance(test, ast.Name):
+            return {test.id}, set()
+        if isinstance(test, ast.UnaryOp) and isinstance(test.op, ast.Not):
+            a, b = nonzero_when(test.operand)
+            return b, a
+        if isinstance(test, ast.BoolOp):
+            parts = [nonzero_when(v) for v in test.values]
+            if isinstance(test.op, ast.And):
+                return set().union(*[p_[0] for p_ in parts]), set()
+            return set(), set().union(*[p_[1] for p_ in parts])
+        if isinstance(test, ast.Compare) and len(test.ops) == 1:
+            a, b, op = test.left, test.comparators[0], test.ops[0]
+            flipped = {ast.Lt: ast.Gt, ast.Gt: ast.Lt, ast.LtE: ast.GtE, ast.GtE: ast.LtE}
+            if isinstance(b, ast.Name) and not isinstance(a, ast.Name):
+                a, b, op = b, a, flipped.get(type(op), type(op))()
+            if isinstance(a, ast.Name) and isinstance(b, ast.Constant) and isinstance(b.value, (int, float)) and not isinstance(b.value, bool):
+                c = b.value
+                if (isinstance(op, ast.Gt) and c >= 0) or (isinstance(op, ast.GtE) and c > 0) or (isinstance(op, ast.NotEq) and c == 0) \
+                        or (isinstance(op, ast.Eq) and c != 0):
+                    return {a.id}, set()
+                if (isinstance(op, ast.Eq) and c == 0) or (isinstance(op, ast.LtE) and c == 0 and False):
+                    return set(), {a.id}
+        return set(), set()
+
+    def refined(state, names):
+        out = {k: set(v) for k, v in state.items()}
+        for nm in names:
+            if nm in out:
+                out[nm] = (out[nm] - {"zero"}) or {"pos"}
+        return out
+
     def scan(stmts, state):
         """state: name -> set of abstract values {'zero','pos','unknown'}"""
         nonlocal found
         for st in stmts:
             if isinstance(st, ast.If):
                 check_exprs(st.test, state)
-                a, b = {k: set(v) for k, v in state.items()}, {k: set(v) for k, v in state.items()}
+                nz_t, nz_f = nonzero_when(st.test)
+                a, b = refined(state, nz_t), refined(state, nz_f)
                 scan(st.body, a)
                 scan(st.orelse, b)
                 for k in state:
@@ -1733,21 +2390,44 @@ def zero_divisors(chk, fn):
 
     def check_exprs(e, state, report=True):
         nonlocal found
-        for n in ast.walk(e):
-            if isinstance(n, ast.BinOp) and isinstance(n.op, (ast.Div, ast.FloorDiv, ast.Mod)) and isinstance(n.right, ast.Name) \
-                    and n.right.id in state:
-                if quiet[0] or not report:
-                    continue
-                found += 1
-                bad = "zero" in state[n.right.id]
-                chk.ob("G4-zero-divisor", n, src(n)[:80], not bad,
-                       f"`{n.right.id}` has been incremented on every path reaching this division" if not bad else
-                       f"`{n.right.id}` can still hold its initial 0 here (first iteration of a (re)started run that is a save step, e.g. "
-                       "save interval 1): ZeroDivisionError aborts the run", file=U.DRIVER, func="main")
+        if isinstance(e, ast.IfExp):
+            check_exprs(e.test, state, report)
+            nz_t, nz_f = nonzero_when(e.test)
+            check_exprs(e.body, refined(state, nz_t), report)
+            check_exprs(e.orelse, refined(state, nz_f), report)
+            return
+        if isinstance(e, ast.BoolOp) and isinstance(e.op, ast.And):
+            st_ = state
+            for v in e.values:              # `n and x / n`: the right operand is evaluated only when the left one is true
+                check_exprs(v, st_, report)
+                st_ = refined(st_, nonzero_when(v)[0])
+            return
+        if isinstance(e, ast.BinOp) and isinstance(e.op, (ast.Div, ast.FloorDiv, ast.Mod)) and isinstance(e.right, ast.Name) \
+                and e.right.id in state and not (quiet[0] or not report):
+            found += 1
+            bad = "zero" in state[e.right.id]
+            chk.ob("G4-zero-divisor", e, src(e)[:80], not bad,
+                   f"`{e.right.id}` is non-zero on every path reaching this division (incremented, or excluded by a test)" if not bad else
+                   f"`{e.right.id}` can still hold its initial 0 here: no increment and no test excludes it on a path from its "
+                   "initialisation (the first iteration of a (re)started run" + (" that is a save step, e.g. save interval 1" if any(
+                       isinstance(x, ast.Mod) for t_, _p, k_ in guards_of(e) if k_ == "if" for x in ast.walk(t_)) else "") +
+                   "): ZeroDivisionError aborts the run", file=U.DRIVER, func="main")
+        for ch in ast.iter_child_nodes(e):
+            if isinstance(ch, ast.expr):
+                check_exprs(ch, state, report)
     state = {k: {"unknown"} for k in zeros}
     scan(fn.body, state)
     if found < 1:
         raise AnalysisError("C18: no division by a zero-initialised counter found in the driver (rule would be vacuous)")
+
+
+def _ancestors(n):
+    out = []
+    p = parent(n)
+    while p is not None:
+        out.append(p)
+        p = parent(p)
+    return out
 
 
 def _is_write(c):
@@ -1755,7 +2435,23 @@ def _is_write(c):
 
 
 def _arith(v):
-    return all(isinstance(n, (ast.Name, ast.Constant, ast.BinOp, ast.UnaryOp, ast.operator, ast.unaryop, ast.expr_context)) for n in ast.walk(v))
+    return all(isinstance(n, (ast.Name, ast.Constant, ast.BinOp, ast.UnaryOp, ast.Compare, ast.BoolOp, ast.operator, ast.unaryop, ast.cmpop,
+                              ast.boolop, ast.expr_context)) for n in ast.walk(v))
+
+
+def _end_index(D, TN, strict):
+    """the exclusive end N of the step index -> (N, exact): `ti < N` gives (N resolved, True); `ti <= L` gives (N, True) when L is
+    written as N - 1, and (L resolved, False) otherwise (the loop then runs up to and including L)"""
+    def unwrap(e):
+        while isinstance(e, ast.Call) and _fname(e) in ("int", "round") and len(e.args) == 1:
+            e = e.args[0]
+        return e
+    tn = unwrap(D.resolve(TN))
+    if strict:
+        return tn, True
+    if isinstance(tn, ast.BinOp) and isinstance(tn.op, ast.Sub) and _is_const(tn.right, 1):
+        return unwrap(tn.left), True
+    return tn, False
 
 
 def restart_bookkeeping(chk, fn):
@@ -1786,7 +2482,8 @@ def restart_bookkeeping(chk, fn):
                 a, b = c.left, c.comparators[0]
                 if isinstance(c.ops[0], (ast.Gt, ast.GtE)):
                     a, b = b, a
-                if isinstance(a, ast.Name) and a.id in incs:
+                deep = {(increment_of(x) or (None,))[0] for x in ast.walk(lp) if isinstance(x, ast.stmt)}
+                if isinstance(a, ast.Name) and (a.id in incs or a.id in deep):
                     TI, TN, strict = a.id, b, isinstance(c.ops[0], (ast.Lt, ast.Gt))
 
     # ---- the index resumes from the loaded time
@@ -1808,15 +2505,15 @@ def restart_bookkeeping(chk, fn):
                 bad = (f"the step index starts at the constant {v.value!r} instead of being derived from the loaded time: after a restart "
                        "the save steps and the end of the run are counted from 0 again")
             elif isinstance(v, ast.BinOp) and isinstance(v.op, (ast.FloorDiv, ast.Div)) and src(v.left) == T:
-                if src(D.resolve(v.right)) == src(step):
-                    tn = D.resolve(TN)
-                    while isinstance(tn, ast.Call) and _fname(tn) in ("int", "round") and len(tn.args) == 1:
-                        tn = tn.args[0]
+                div = D.resolve(v.right)
+                if src(div) == src(step):
+                    tn, _exact = _end_index(D, TN, strict)
                     if isinstance(tn, ast.BinOp) and isinstance(tn.op, (ast.FloorDiv, ast.Div)) and src(D.resolve(tn.right)) == src(step):
                         ok = True
-                else:
+                elif all(isinstance(x, (ast.Name, ast.Attribute, ast.Constant, ast.expr_context)) for e_ in (div, step) for x in ast.walk(e_)):
                     bad = (f"the step index is `{src(init[0][1])[:60]}` but the time advances by `{src(step)}` per step: index and time "
                            "disagree after a restart")
+    label_is_time = ok is True          # the driver treats the value parsed from the checkpoint's name as the time (index = it // step)
     chk.pat("W3-restart-index", fn, "ti = t // dt from the loaded time", ok, "the time index resumes from the time returned by the set-up "
             "(0 for a new run, the checkpoint's time for a restart), in units of the step by which the time advances", bad, **KD)
 
@@ -1825,26 +2522,45 @@ def restart_bookkeeping(chk, fn):
     if lp is not None and T is not None and TI is not None:
         def stores(nm):
             return [n for n in ast.walk(lp) if isinstance(n, ast.Name) and n.id == nm and isinstance(n.ctx, ast.Store)]
+        unclear = False
+
+        def guard_sig(nm):
+            """conditions under which the single increment of `nm` runs inside the loop body"""
+            xs = [parent(x) for x in stores(nm) if isinstance(parent(x), ast.stmt) and (increment_of(parent(x)) or (None,))[0] == nm]
+            return tuple((src(t_), p_) for t_, p_, k_ in guards_of(xs[0], stop=lp)) if len(xs) == 1 else None
         for nm, what in ((T, "time"), (TI, "step index")):
             top = incs.get(nm, [])
-            if len(stores(nm)) != 1 or len(top) != 1:
-                bad = bad or (f"the {what} `{nm}` is assigned {len(stores(nm))} time(s) in the loop, {len(top)} of them an unconditional "
-                              "increment at the top level of the body: time and index no longer advance together once per step")
-        if not bad:
+            sts = [parent(x) for x in stores(nm)]
+            all_incs = [x for x in sts if isinstance(x, ast.stmt) and (increment_of(x) or (None,))[0] == nm]
+            if len(sts) == 1 and len(top) == 1:
+                continue
+            if len(all_incs) >= 2:
+                bad = bad or (f"the {what} `{nm}` is incremented {len(all_incs)} times in the loop (lines "
+                              f"{', '.join(str(getattr(x, 'lineno', '?')) for x in all_incs)}): time and index no longer advance together "
+                              "once per step")
+            elif len(sts) == 1 and len(all_incs) == 1 and any(k_ == "if" for t_, p_, k_ in guards_of(all_incs[0], stop=lp)) \
+                    and guard_sig(T) != guard_sig(TI):
+                g_ = next(t_ for t_, p_, k_ in guards_of(all_incs[0], stop=lp) if k_ == "if")
+                bad = bad or (f"the {what} `{nm}` advances only under the condition `{src(g_)[:60]}`: time and index no longer advance "
+                              "together once per step")
+            else:
+                unclear = True          # recomputed instead of incremented, or assigned in a way this rule does not follow
+        if not bad and not unclear:
             one = incs[TI][0][1]
+            tn, exact = _end_index(D, TN, strict)
             if not _is_const(one, 1):
                 bad = f"the step index advances by `{src(one)}` per step, not by 1"
-            elif not strict:
-                bad = (f"the loop runs while `{TI} <= {src(TN)}`: one step more than the end time asks for, so N+M split steps differ "
-                       "from an unsplit run")
-            else:
-                ok = True
+            elif exact:
+                ok = True               # `ti < N`, or `ti <= last` with last = N - 1: the same iterations
+            elif isinstance(tn, ast.BinOp) and isinstance(tn.op, (ast.FloorDiv, ast.Div)):
+                bad = (f"the loop runs while `{TI} <= {src(TN)}` with `{src(TN)}` = `{src(D.resolve(TN, depth=1))}`, the number of steps up to the end time: one "
+                       "step more than the end time asks for, so N+M split steps differ from an unsplit run")
     chk.pat("W3-restart-index", lp if lp is not None else fn, "one step: t += dt, ti += 1", ok,
             "time and time index advance together, once per iteration, top-level in the loop body", bad, **KD)
 
     # ---- save steps: decided by evaluating the conditions for all small (interval, restart step, number of steps)
     ok = bad = None
-    if lp is not None and TI is not None and not hidden:
+    if lp is not None and TI is not None and TI in incs and not hidden:
         ok, bad = _save_steps(fn, D, lp, TI, incs, writes)
     chk.pat("W3-save-steps", fn, "save when ti % saveStep == saveStep-1; final save when ti % saveStep != 0", ok,
             "as congruences on the global step index: the regular save fires when the index of the completed step is a multiple of the "
@@ -1854,15 +2570,27 @@ def restart_bookkeeping(chk, fn):
     # ---- both grids are written with the same time at every save site
     ok = bad = None
     if G is not None and T is not None and not hidden and len(writes) >= 2:
+        # a save site = the writes that happen under the same conditions at the same place of the run (inside the time loop /
+        # outside it): two `if` statements with the same test form one site, provided nothing the test or the label depends
+        # on is assigned between them
         sites = {}
         for c in writes:
             st = c
             while not isinstance(st, ast.stmt):
                 st = parent(st)
-            sites.setdefault(id(parent(st)) if not isinstance(parent(st), ast.FunctionDef) else (id(parent(st)), tuple(
-                (src(t), p) for t, p, k in guards_of(st))), []).append(c)
+            where = "loop" if lp is not None and any(x is c for x in ast.walk(lp)) else "before" if lp is not None and _pos(c) < _pos(lp) else "after"
+            conds = tuple((src(D.resolve(t_, only=_arith)), p_) for t_, p_, k_ in guards_of(st) if k_ in ("if", "ifexp"))
+            sites.setdefault((where, conds), []).append(c)
         good = 0
-        for blk in sites.values():
+        unknown_label = False
+        for (where, conds), blk in sites.items():
+            holders = {id(parent(next(x for x in [c] + _ancestors(c) if isinstance(x, ast.stmt)))) for c in blk}
+            if len(holders) > 1:
+                lo, hi = min(_pos(c) for c in blk), max(_pos(c) for c in blk)
+                between = {n.id for n in _own_walk(fn) if isinstance(n, ast.Name) and isinstance(n.ctx, ast.Store) and lo < _pos(n) < hi}
+                watched = {T} | {x.id for t_ in conds for x in ast.walk(ast.parse(t_[0], mode="eval")) if isinstance(x, ast.Name)}
+                if between & watched:
+                    continue            # the state changes between the pieces of this site: cannot decide
             rows = []
             for c in blk:
                 conv = _arg(c, 2, "nameConvention")
@@ -1885,8 +2613,11 @@ def restart_bookkeeping(chk, fn):
                 elif g[2] != p[2] or g[1] != p[1]:
                     bad = bad or f"the two grids at line {line} are written with different folder/time (`{g[1]}, {g[2]}` / `{p[1]}, {p[2]}`)"
                 elif g[2] != T:
-                    bad = bad or (f"the checkpoints at line {line} are labelled with `{g[2]}`, not with the current time `{T}`: the restart "
-                                  "parses the label as the time to resume from")
+                    if label_is_time:
+                        bad = bad or (f"the checkpoints at line {line} are labelled with `{g[2]}`, not with the current time `{T}`: the restart "
+                                      f"parses the label and the driver resumes with it as the time (`{TI}` = `{T}` // step)")
+                    else:
+                        unknown_label = True
                 else:
                     good += 1
         in_loop = any(any(x is c for x in ast.walk(lp)) for c in writes) if lp is not None else False
@@ -1951,11 +2682,45 @@ def _mod_condition(test):
 
 def _save_steps(fn, D, lp, TI, incs, writes):
     """the two save conditions as congruences on the global step index -> (ok, bad)"""
+    # a local is written out only when its value is still the same where the test is evaluated: not when it mentions something
+    # the loop assigns (e.g. `k0 = ti` before the loop is a snapshot of the index, not the index)
+    loop_stored = {n.id for n in ast.walk(lp) if isinstance(n, ast.Name) and isinstance(n.ctx, ast.Store)}
+    all_stores = [(n.id, _pos(n)) for n in _own_walk(fn) if isinstance(n, ast.Name) and isinstance(n.ctx, ast.Store)]
+
+    def stable_at(use):
+        def stable(v):
+            if not _arith(v):
+                return False
+            names = {x.id for x in ast.walk(v) if isinstance(x, ast.Name)}
+            d, u = _pos(v), _pos(use)
+            if any(nm in names and d < p_ < u for nm, p_ in all_stores):
+                return False            # assigned between the definition and the test
+            if d < _pos(lp) < u and names & loop_stored:
+                return False            # defined before the loop from something the loop changes
+            return True
+        return stable
+    snapshots = {}          # local -> TI, for `local = TI` assigned once, before the loop
+    for nm, ds in D.defs.items():
+        if len(ds) == 1 and isinstance(ds[0][0], ast.Name) and ds[0][0].id == TI and _pos(ds[0][1]) < _pos(lp) and nm not in loop_stored \
+                and not any(ds[0][1] is x for x in ast.walk(lp)):
+            snapshots[nm] = TI
+    run_local = {}          # synthetic name -> text, for `TI - snapshot`
+
+    class Since(ast.NodeTransformer):
+        def visit_BinOp(self, node):
+            self.generic_visit(node)
+            if isinstance(node.op, ast.Sub) and isinstance(node.left, ast.Name) and node.left.id == TI and isinstance(node.right, ast.Name) \
+                    and node.right.id in snapshots:
+                nm = f"steps_since_{node.right.id}"
+                run_local[nm] = src(node)
+                return ast.copy_location(ast.Name(id=nm, ctx=ast.Load()), node)
+            return node
+
     def site_test(c, stop):
         gs = guards_of(c, stop=stop)
         if len(gs) != 1 or gs[0][2] != "if":
             return None
-        t = D.resolve(gs[0][0], only=_arith)
+        t = Since().visit(D.resolve(gs[0][0], only=stable_at(gs[0][0])))
         if not gs[0][1]:
             t = ast.UnaryOp(op=ast.Not(), operand=t)
         return t
@@ -1969,10 +2734,11 @@ def _save_steps(fn, D, lp, TI, incs, writes):
         while parent(st) is not lp:
             st = parent(st)
         return lp.body.index(st)
-    k_save = {top_index(c) for c in in_loop}
-    if len(k_save) != 1:
+    # every in-loop write must be on the same side of the index increment (and of nothing else that the test reads)
+    sides = {incs[TI][0][0] > top_index(c) for c in in_loop} if TI in incs else set()
+    if len(sides) != 1:
         return None, None
-    k_save = k_save.pop()
+    k_save = min(top_index(c) for c in in_loop)
     lt, ft = site_test(in_loop[0], lp), site_test(after[0], fn)
     if lt is None or ft is None or any(site_test(c, lp) is None or src(site_test(c, lp)) != src(lt) for c in in_loop) \
             or any(site_test(c, fn) is None or src(site_test(c, fn)) != src(ft) for c in after):
@@ -1986,7 +2752,15 @@ def _save_steps(fn, D, lp, TI, incs, writes):
         init = [d for d in D.defs.get(nm, []) if _pos(d[1]) < _pos(lp)]
         if nm != TI and len(lst) == 1 and _is_const(lst[0][1], 1) and len(init) == 1 and _is_const(init[0][0], 0):
             local.add(nm)
+    if lc[0] == fc[0] and lc[0] != TI:
+        return None, None            # both sites count in the same other variable: another convention, not compared here
     for (v, off, M, (a, rng), sense), where, text in ((lc, "regular (in-loop) save", src(lt)), (fc, "final flush after the loop", src(ft))):
+        if v in run_local:
+            return None, (f"the {where} is decided by `{text}` with {v} = `{run_local[v]}`, the index counted from the step at which THIS "
+                          f"invocation started (`{run_local[v].split(' - ')[-1]}` is `{TI}` before the loop), while the other checkpoints are "
+                          f"aligned on the global step index `{TI}`. In a restarted run the two differ by the step of the restart k0: whenever "
+                          f"k0 is not a multiple of {M} they disagree, e.g. restart at step 1 with {M} = 2 and 2 more steps: the run stops at "
+                          f"step 3 with {v} % {M} == 0, and the checkpoints on disk are not those of an unsplit run of 3 steps")
         if v in local:
             return None, (f"the {where} is decided by `{text}`, i.e. by `{v}`, the number of steps of THIS invocation, while the checkpoints "
                           f"are aligned on the global step index `{TI}`. In a restarted run {v} = {TI} - k0 (k0 = step of the restart): "
@@ -2008,8 +2782,12 @@ def _save_steps(fn, D, lp, TI, incs, writes):
         return None, (f"the regular save condition `{src(lt)}` " + ("can never hold (a remainder is smaller than the modulus):" if rng == "no value"
                       else f"can only hold for {rng}: for the other save intervals (e.g. {M} = 1)") + " no regular checkpoint is ever written")
     if t != 0:
+        fa, foff, fsense = fc[3][0], fc[1], fc[4]
+        if fsense == "ne" and fc[3][1] is None and fa - foff == t:
+            return None, None        # regular save and final flush agree on another residue: a consistent other convention
         return None, (f"the regular save `{src(lt)}` fires when the index of the completed step is ≡ {t} (mod {M}), not at the multiples "
-                      f"of {M}: e.g. with {M} = {abs(t) + 1} the checkpoints are not those of an unsplit run and do not match the final-flush test")
+                      f"of {M}, while the final flush is decided by `{src(ft)}`: e.g. with {M} = {abs(t) + 1} the checkpoints are not those "
+                      "of an unsplit run and do not match the final-flush test")
     v, off, _, (a, rng), sense = fc
     t = a - off
     if t == 0 and rng is None and sense == "ne":
@@ -2023,15 +2801,20 @@ def _save_steps(fn, D, lp, TI, incs, writes):
 
 def run(chk):
     chk.explanation = (
-        "Writer/reader agreement of the checkpoint format on expressions with local definitions written out (dataset path, Layout "
-        "attribute, hyperslab by the layout's starts/ends on write and on both read paths, layout guard, stored-layout look-up, "
-        "setLayout to the requested layout); the file-name protocol decided by running writer, loader and restart set-up in a small "
-        "interpreter on a model directory (names distinct and ordered like times, latest = largest time for any directory order and "
-        "file dates, requested time honoured including 0, time parsed back, parameter-file name); the constants round trip (setters' "
-        "write sets commute, printer run on a model object and parsed as JSON, defaults after the file, deferral of unset operands); "
-        "the driver's zero divisors (flow analysis), restart index and the save conditions evaluated for all small (interval, restart "
-        "step, steps). Bit-exact HDF5 round trip and equality of split and unsplit runs are history-level/numerical and are not "
-        "decided. Collective matching of the parallel-HDF5 calls and setupSave is decided by C06.")
+        "All rules are decided from the syntax tree; nothing of the repository is run. Writer/reader agreement of the checkpoint "
+        "format on expressions with local definitions written out (dataset path, Layout attribute compared between writer and loader, "
+        "hyperslab by the layout's starts/ends on write and on both read paths, layout guard, stored-layout look-up, setLayout to the "
+        "requested layout; accessor methods such as getAllData() are written back to the attribute they return); the file-name "
+        "protocol on templates of the name expressions (same family for writer, loader and restart, zero padding, glob pattern, "
+        "selection of the largest name, requested time honoured including 0) and the time parsed back from the chosen name, decided "
+        "by applying the split / partition / basename / splitext operations to an abstract string <folder>/<name>_<digits><suffix>; "
+        "the constants round trip (setters' write sets commute; the printer's attribute source - dir(self) with its filters, also as "
+        "early `continue`s, or the keys of a module- or class-level table, which must cover every settable public attribute; JSON "
+        "shape of an entry and of the frame; defaults after the file; deferral of unset operands and the return of the deferred "
+        "entries to the work-list); the driver's zero divisors (flow analysis refined by tests), restart index, loop bound, and the "
+        "save conditions as congruences on the global step index (run-local counters and `ti - <index at start>` are recognised as "
+        "counts of this invocation). Bit-exact HDF5 round trip and equality of split and unsplit runs are history-level/numerical "
+        "and are not decided. Collective matching of the parallel-HDF5 calls and setupSave is decided by C06.")
     chk.in_file(U.GRID)
     props = {m.name for m in chk.mod(U.LAYOUT).cls("Layout").body if isinstance(m, ast.FunctionDef)
              and any(src(d) == "property" for d in m.decorator_list)}
